@@ -31,7 +31,8 @@ Definition evaluator_table : list entry := [
   ("If/if_op", ([], NoShapeUse));
   ("Identity/identity", (["SymbolicDim"; "_merge_shapes"; "set_sym_value"; "shape"],
      Modelled ["C09_merge_shapes_sound"; "C09_merge_dims_keeps_int"; "C09_shape_value_sound"]));
-  ("SequenceConstruct/sequence_construct", (["set_sym_value"], Differential seq_reason));
+  ("SequenceConstruct/sequence_construct", (["set_sym_value"],
+     Modelled ["C09_seq_at_sound"; "C09_stack_shape_sound"]));
   ("Concat/concat", (["dims"; "get_shape_value"; "set_sym_value"; "shape"],
      Modelled ["C09_concat_drop_shape_sound"; "C09_concat_drop_all_shape_sound"; "C09_block_concat_drop";
                "C09_concat_drop_accepts_exactly_refuted"; "C09_concat_drop_fixed_accepts_exactly"; "C09_keq_except_sound";
@@ -39,10 +40,12 @@ Definition evaluator_table : list entry := [
   ("Dropout/dropout v(12, None)", ([], NoShapeUse));
   ("Expand/expand", (["SymbolicDim"; "_same_shape"; "dims"; "get_shape_value"; "shape"],
      Modelled ["C09_expand_identity_sound"; "C09_expand_identity_const_sound"]));
-  ("ConcatFromSequence/concat_from_sequence", (["get_sym_value"], Differential seq_reason));
+  ("ConcatFromSequence/concat_from_sequence", (["get_sym_value"],
+     Modelled ["C09_stack_shape_sound"; "C09_chunks_concat"; "C09_concat_drop_fixed_accepts_exactly"]));
   ("SplitToSequence/split_to_sequence", (["is_static"; "shape"],
-     Modelled ["C09_split_scalar_sound"; "C09_static_shape_valuation_independent"]));
-  ("SequenceAt/sequence_at", (["get_sym_value"; "set_sym_value"], Differential seq_reason))
+     Modelled ["C09_split_scalar_sound"; "C09_static_shape_valuation_independent"; "C09_chunks_length"; "C09_chunks_concat"; "C09_split_vector_keepdims1_sound"; "C09_split_vector_keepdims0_refuted"]));
+  ("SequenceAt/sequence_at", (["get_sym_value"; "set_sym_value"],
+     Modelled ["C09_seq_at_sound"]))
 ].
 
 Definition rule_table : list entry := [
@@ -51,14 +54,14 @@ Definition rule_table : list entry := [
   ("_basic_rules.py:CastCast", ([], NoShapeUse));
   ("_basic_rules.py:ExpandIdentity", (["dims"; "shape"], Modelled ["C09_expand_identity_const_sound"]));
   ("_basic_rules.py:ReshapeReshape", (["shape"],
-     Differential "reads only static positive dims of the output annotation (ints do not depend on the binding: C09_static_shape_valuation_independent); the rule is modelled under C05 (Rules/Reshape); here original vs optimize() at every binding (oracle-only models reshape-reshape:*)"));
+     Modelled ["C09_reshape_reshape_annotated_sound"; "C09_reshape_reshape_subst_known_sound"; "C09_reshape_reshape_decline_needed"; "C09_reshape_reshape_decline_two_zeros"]));
   ("_basic_rules.py:SlicesSplit", (["shape"],
-     Differential "requires a static last dim (isinstance int) and reads the rank; modelled under C05 (slices family); here original vs optimize() at every binding of the other dims (oracle-only model slices-split)"));
+     Modelled ["C09_slices_split_sound"]));
   ("_basic_rules.py:TransposeIdentity", ([], NoShapeUse));
   ("_basic_rules.py:TransposeTranspose", ([], NoShapeUse));
   ("_basic_rules.py:UnsqueezeUnsqueeze", ([], NoShapeUse));
   ("_basic_rules.py:Flatten2Reshape", (["shape"],
-     Differential "the emitted Reshape(x, [0,-1]) is refuted for an empty batch (C09_flatten_to_reshape_refuted, known finding; C09_flatten_no_constant_target: no constant target is right for every rank-4 input, so the rule can only be repaired by refusing); otherwise original vs optimize() at every binding (oracle-only models flatten-to-reshape:*)"));
+     Modelled ["C09_flatten_target_correct_iff"; "C09_flatten_no_constant_target"; "C09_flatten_to_reshape_refuted"]));
   ("_collapse_slices.py:collapse_slice_rule", (["is_dynamic"; "shape"], Modelled ["C09_collapse_slice1_sound"]));
   ("_collapse_slices.py:collapse_slice2_rule", (["same_shape"; "shape"], Modelled ["C09_iu_same_shape_sound"; "C09_collapse_slice_window"]));
   ("_materialize_reshape_shape.py:MaterializeReshapeShape", (["shape"], Modelled ["C09_materialize_reshape_sound"]));
@@ -69,14 +72,14 @@ Definition rule_table : list entry := [
   ("_redundant_scatter_nd.py:ScatterAllDynamic", (["same_dim"; "shape"], Modelled ["C09_scatter_dyn_sound"; "C09_scatter_dyn_values"]));
   ("_redundant_scatter_nd.py:ScatterAllStatic", (["same_shape"; "shape"], Modelled ["C09_scatter_static_sound"; "C09_scatter_full_range"]));
   ("_broadcast_to_matmul.py:two_reshapes_matmul_reshape_rule", (["SymbolicDim"; "shape"],
-     Modelled ["C09_b2m_guard_static"; "C09_static_shape_valuation_independent"]));
+     Modelled ["C09_b2m_check_sound"; "C09_b2m_guard_static"; "C09_static_shape_valuation_independent"]));
   ("_broadcast_to_matmul.py:one_reshape_matmul_reshape_rule", (["SymbolicDim"; "shape"],
-     Modelled ["C09_b2m_guard_static"; "C09_static_shape_valuation_independent"]));
+     Modelled ["C09_b2m_check_sound"; "C09_b2m_guard_static"; "C09_static_shape_valuation_independent"]));
   ("_ir_utils.py:has_rank", (["rank"; "shape"], Modelled ["C09_squeeze_reshape_1d_sound"]));
   ("_ir_utils.py:broadcast_keeps_rank", (["rank"; "shape"],
      Modelled ["C09_rank_valuation_independent"; "C09_broadcast_keeps_rank_sound"; "C09_broadcast_keeps_rank_no_reference"]));
   ("_ir_utils.py:get_dim", (["SymbolicDim"; "rank"; "shape"],
-     Differential "returns the annotated dim, no decision; not called by the anchored rule files (used by the fusion rules: C19)"));
+     Differential "returns the annotated dim at a (Python-normalised) position and takes no decision; no rule of the anchored files calls it (callers are the fusion rules, whose use of the returned dim is modelled under C19); nothing to state for a valuation beyond C09_rank_valuation_independent"));
   ("_ir_utils.py:same_shape", (["has_unknown_dim"], Modelled ["C09_iu_same_shape_sound"]));
   ("_ir_utils.py:same_dim", (["SymbolicDim"], Modelled ["C09_same_dim_sound"]))
 ].
